@@ -526,3 +526,190 @@ Example C09_primitives_example :
   PredTab.diag_where (PredTab.first_bad_pred PredGen.fns_actor_link_is_mediatype) = Some (B "Actor.GetLink", None) /\
   PredTab.as_bytes (PredTab.sem_dyn PredGen.fns_actor_link_is_mediatype PredTab.m_GetLink PredGen.pg_actor) = Ok (B "text/plain").
 Proof. repeat split; vm_compute; reflexivity. Qed.
+
+(* ==================================================================================================================
+   ---- ids OUTSIDE the plain URL grammar (builder b47) ----
+   Everything above is about [ieq] = ItemsEqual with IRI.Equals as modelled over the plain URL grammar (iri_eqb,
+   Model/IriEq.v over Model/Url.v).  An id with a percent-escape, userinfo, an IP literal or a byte >= 0x80 is outside
+   that grammar: iri_eqb compares it by the string fast path only, which is NOT what the code does
+   ("http://h/%41" and "http://h/A" are equal for the code), and the identity clause had only C09_id_partial there.
+   The definitions of Model/Equal.v are parametric in the IRI comparison (module EqG; the names used above are its
+   instance with iri_eqb) and so is every lemma of Proofs/EqualP.v (module EqGP: reflexivity and symmetry of the
+   comparison is all they use).  Model/EqualU.v instantiates THE SAME definitions with [iri_equ] - the real IRI.Equals
+   on all byte strings (Model/IriEqU.v over Model/UrlU.v and Model/Fold.v; builders b33, b44) - as [ieq_u], and the
+   correspondence check runs ieq_u against the real ItemsEqual on ids outside the plain grammar (harness/c09u.go).
+   The theorems below are the property for ieq_u: for ALL items, whatever byte strings their ids are; the identity
+   clause for all ids of C14's wide domain iri_dom_u (any byte string url.Parse gives a scheme and a host, query
+   literal in one letter case).  Nothing above is changed or weakened. *)
+From AP.Model Require Import Fold UrlU IriEqU EqualU.
+From AP.Proofs Require Import IriUP EqualUP.
+
+(* the generic development: for EVERY comparison that is reflexive and symmetric, ItemsEqual terminates, never
+   panics, is reflexive and nil-correct (the statement the two instances come from) *)
+Theorem C09_generic : forall ideq : bytes -> bytes -> bool -> bool,
+  (forall s cs, ideq s s cs = true) -> (forall a b cs, ideq a b cs = ideq b a cs) ->
+  (forall x y, exists b, EqGI.ieq ideq x y = Ok b) /\
+  (forall x y k, fuel_for x y <= k -> EqG.items_equal ideq k x y = EqGI.ieq ideq x y) /\
+  (forall x, EqGI.ieq ideq x x = Ok true) /\
+  (forall x y, is_nil x = true ->
+     (is_nil y = true -> EqGI.ieq ideq x y = Ok true) /\
+     (is_nil y = false -> EqGI.ieq ideq x y = Ok false /\ EqGI.ieq ideq y x = Ok false)) /\
+  (forall p k fs q k' gs, k <> KLink -> k' <> KLink -> ideq (get_str F_ID fs) (get_str F_ID gs) true = false ->
+     EqGI.ieq ideq (IObj p k fs) (IObj q k' gs) = Ok false /\ EqGI.ieq ideq (IObj q k' gs) (IObj p k fs) = Ok false).
+Proof.
+  exact (fun ideq Hr Hs =>
+    conj (EqGP.ieq_no_panic ideq) (conj (EqGP.fuel_enough ideq) (conj (EqGP.ieq_refl ideq Hr)
+      (conj (EqGP.ieq_nil ideq) (EqGP.ieq_ids_differ ideq Hs))))).
+Qed.
+(* the names used above ARE the instance with iri_eqb, by definition *)
+Theorem C09_plain_is_instance : forall x y, ieq x y = EqGI.ieq iri_eqb x y.
+Proof. exact (fun x y => eq_refl). Qed.
+
+Theorem C09_terminates_u : forall x y, exists n, forall m, n <= m ->
+  items_equal_u m x y = items_equal_u n x y /\ items_equal_u n x y <> OutOfFuel.
+Proof. exact items_equal_u_terminates. Qed.
+Theorem C09_fuel_enough_u : forall x y k, fuel_for x y <= k -> items_equal_u k x y = ieq_u x y.
+Proof. exact fuel_enough_u. Qed.
+Theorem C09_unfold_u : forall x y, ieq_u x y = items_equal_body_u cfg_fixed ieq_u x y.
+Proof. exact ieq_u_unfold. Qed.
+Theorem C09_no_panic_u : forall x y, exists b, ieq_u x y = Ok b.
+Proof. exact ieq_u_no_panic. Qed.
+Theorem C09_refl_u : forall x, ieq_u x x = Ok true.
+Proof. exact ieq_u_refl. Qed.
+Theorem C09_nil_u : forall x y, is_nil x = true ->
+  (is_nil y = true -> ieq_u x y = Ok true) /\
+  (is_nil y = false -> ieq_u x y = Ok false /\ ieq_u y x = Ok false).
+Proof. exact ieq_u_nil. Qed.
+Theorem C09_method_nil_u : forall k fs w o,
+  is_nil w = true -> equals_method_u cfg_fixed ieq_u k fs w = Some o -> o = Ok false.
+Proof. exact equals_method_u_nil. Qed.
+
+(* "Two objects whose ids differ in host, path or query ... are never equal": FOR ALL ids of the wide domain, where
+   ids_differ_hpq_u a b = the normal forms nf_u without scheme differ = host with port, cleaned DECODED path (both up
+   to the folding of iri.go equalFold) or the multiset of DECODED query parameters differ; scheme, fragment and
+   userinfo are not looked at *)
+Theorem C09_id_u : forall p k fs q k' gs,
+  k <> KLink -> k' <> KLink ->
+  iri_dom_u (get_str F_ID fs) = true -> iri_dom_u (get_str F_ID gs) = true ->
+  ids_differ_hpq_u (get_str F_ID fs) (get_str F_ID gs) = true ->
+  ieq_u (IObj p k fs) (IObj q k' gs) = Ok false /\ ieq_u (IObj q k' gs) (IObj p k fs) = Ok false.
+Proof. exact ieq_u_ids_differ_hpq. Qed.
+(* host or cleaned path differ beyond the folding: any two ids url.Parse gives a scheme and a host, whatever their
+   queries *)
+Theorem C09_id_host_path_u : forall p k fs q k' gs u w,
+  k <> KLink -> k' <> KLink ->
+  url_classify_u (get_str F_ID fs) = UValid u -> url_classify_u (get_str F_ID gs) = UValid w ->
+  scanon (u_host u) <> scanon (u_host w) \/
+  scanon (clean_url_path path_clean (u_path u)) <> scanon (clean_url_path path_clean (u_path w)) ->
+  ieq_u (IObj p k fs) (IObj q k' gs) = Ok false /\ ieq_u (IObj q k' gs) (IObj p k fs) = Ok false.
+Proof. exact ieq_u_ids_differ_host_path. Qed.
+(* arbitrary id strings (kept, as C09_id_partial above): ids that IRI.Equals with scheme tells apart *)
+Theorem C09_id_partial_u : forall p k fs q k' gs,
+  k <> KLink -> k' <> KLink ->
+  iri_equ (get_str F_ID fs) (get_str F_ID gs) true = false ->
+  ieq_u (IObj p k fs) (IObj q k' gs) = Ok false /\ ieq_u (IObj q k' gs) (IObj p k fs) = Ok false.
+Proof. exact ieq_u_ids_differ. Qed.
+Theorem C09_type_u : forall p k fs q k' gs,
+  k <> KLink -> k' <> KLink ->
+  fold_eqb (get_str F_Type fs) (get_str F_Type gs) = false ->
+  ieq_u (IObj p k fs) (IObj q k' gs) = Ok false /\ ieq_u (IObj q k' gs) (IObj p k fs) = Ok false.
+Proof. exact ieq_u_types_differ. Qed.
+
+(* sensitivity to one compared property *)
+Theorem C09_sensitive_core_u : forall c p k fs q k' gs,
+  k <> KLink -> get_str F_Type fs = get_str F_Type gs ->
+  In c object_cmps -> cmp_one_u cfg_fixed ieq_u c fs gs = Ok false ->
+  ieq_u (IObj p k fs) (IObj q k' gs) = Ok false.
+Proof. exact ieq_u_core_block_false. Qed.
+Theorem C09_sensitive_activity_u : forall c p fs q gs,
+  get_str F_Type fs = get_str F_Type gs -> tl_contains tl_ActivityTypes (get_str F_Type gs) = true ->
+  In c (intransitive_cmps ++ activity_cmps) -> cmp_one_u cfg_fixed ieq_u c fs gs = Ok false ->
+  ieq_u (IObj p KActivity fs) (IObj q KActivity gs) = Ok false.
+Proof. exact ieq_u_activity_block_false. Qed.
+Theorem C09_block_item_u : forall f fs gs,
+  get_item f gs <> INil -> ieq_u (get_item f fs) (get_item f gs) = Ok false ->
+  cmp_one_u cfg_fixed ieq_u (CItem f) fs gs = Ok false.
+Proof. exact cmp_u_item_rejects. Qed.
+Theorem C09_block_items_u : forall f fs gs l,
+  get_items f gs = Some l -> ieq_u (IItems false (get_items f fs)) (IItems false (Some l)) = Ok false ->
+  cmp_one_u cfg_fixed ieq_u (CItems f) fs gs = Ok false.
+Proof. exact cmp_u_items_rejects. Qed.
+Theorem C09_block_url_u : forall fs gs,
+  is_nil (get_item F_URL gs) = false ->
+  (is_nil (get_item F_URL fs) = true \/
+   iri_equ (lnk (get_item F_URL gs)) (lnk (get_item F_URL fs)) false = false) ->
+  cmp_one_u cfg_fixed ieq_u CUrl fs gs = Ok false.
+Proof. exact cmp_u_url_rejects. Qed.
+(* item-valued properties holding IRIs: distinguishable = not IRI-equivalent; on the wide domain = another normal form *)
+Theorem C09_iris_u : forall p a q b, is_nil (IIri p a) = false -> is_nil (IIri q b) = false ->
+  ieq_u (IIri p a) (IIri q b) = Ok (iri_equ a b false).
+Proof. exact ieq_u_iris. Qed.
+Theorem C09_iris_nf_u : forall p a q b, is_nil (IIri p a) = false -> is_nil (IIri q b) = false ->
+  iri_dom_u a = true -> iri_dom_u b = true ->
+  ieq_u (IIri p a) (IIri q b) = Ok (nf_u_eqb (nf_u false a) (nf_u false b)).
+Proof. exact ieq_u_iris_nf. Qed.
+
+(* non-vacuity: ids outside the plain grammar.  An escaped letter / an escaped percent sign; userinfo / the host
+   hidden behind userinfo; an IPv6 literal with zone in two letter cases / another port; a byte that is not UTF-8 raw
+   and escaped / U+FFFD.  The hypotheses of C09_id_u hold for the look-alikes; presentations of one id do not
+   "differ"; and the plain model gives the wrong answer on the first pair *)
+Definition ex_note_u (id : bytes) : item := IObj true KObject [(F_ID, FStr id); (F_Type, FStr (B "Note"))].
+Example C09_example_id_u :
+  let a := B "https://example.com/users/%41lice?k=%4a" in
+  let a' := B "https://bob:pw@EXAMPLE.com/users/./alice/?k=%4A#me" in
+  let b := B "https://example.com/users/%2541lice?k=%4a" in
+  let c := B "https://example.com@evil.example/users/alice?k=%4a" in
+  let d := B "http://[fe80::1%25eth0]:8080/a%FF" in
+  let d' := hx "485454503a2f2f5b464538303a3a31253235455448305d3a383038302f2e2f41ff" in   (* HTTP://[FE80::1%25ETH0]:8080/./A\xff *)
+  let e := B "http://[fe80::1%25eth0]:8081/a%FF" in
+  let f := B "http://[fe80::1%25eth0]:8080/a%EF%BF%BD" in
+  iri_dom_u a = true /\ iri_dom_u a' = true /\ iri_dom_u b = true /\ iri_dom_u c = true /\
+  iri_dom_u d = true /\ iri_dom_u d' = true /\ iri_dom_u e = true /\ iri_dom_u f = true /\
+  iri_dom a = false /\ iri_dom d = false /\
+  ids_differ_hpq_u a a' = false /\ ids_differ_hpq_u a b = true /\ ids_differ_hpq_u a c = true /\
+  ids_differ_hpq_u d d' = false /\ ids_differ_hpq_u d e = true /\ ids_differ_hpq_u d f = true /\
+  ieq_u (ex_note_u a) (ex_note_u a') = Ok true /\ ieq (ex_note_u a) (ex_note_u a') = Ok false /\
+  ieq_u (ex_note_u a) (ex_note_u b) = Ok false /\ ieq_u (IIri false d) (ex_note_u d') = Ok true /\
+  ieq_u (ex_note_u d) (ex_note_u f) = Ok false.
+Proof. cbv zeta. repeat split; vm_compute; reflexivity. Qed.
+
+(* ---- the wide model under the translator (builder b47) ----
+   The table ties of the blocks above (b26, b32) are generic in the IRI comparison too (modules EtGP, ItGP, CcGP of
+   Proofs/EqualsTabP.v, ItemsEqTabP.v, CmpCalleeP.v): for EVERY comparison and every table satisfying the conditions
+   the interpreted tables are the hand-written definitions.  So ItemsEqual over the wide comparison, read from the
+   tables regenerated from the source on this run (Model/EqualTabU.v), is [items_equal_u] / [ieq_u] - the statement
+   sequences of ItemsEqual, its helpers and the nine Equals methods are not hand-written in the wide model either;
+   what stays hand-written is the leaf iri_equ (C14's model, tied by correspondence). *)
+From AP.Model Require Import EqualTabU.
+
+Theorem C09_items_equal_all_tables_generic : forall (ideq : bytes -> bytes -> bool -> bool) tbl,
+  itemseq_table_ok tbl = true -> forall eqtbl others, equals_table_ok eqtbl others = true ->
+  forall n it w, ItG.items_equal_t ideq tbl eqtbl n it w = EqG.items_equal ideq n it w.
+Proof. exact ItGP.items_equal_t_tie. Qed.
+Theorem C09_equals_table_tie_generic : forall (ideq : bytes -> bytes -> bool -> bool) tbl others,
+  equals_table_ok tbl others = true ->
+  forall rec k fs w, EtG.equals_method_t ideq tbl rec k fs w = EqG.equals_method ideq cfg_fixed rec k fs w.
+Proof. exact EtGP.equals_table_tie'. Qed.
+
+Theorem C09_equals_gen_u : forall rec k fs w,
+  equals_method_gen_u rec k fs w = equals_method_u cfg_fixed rec k fs w.
+Proof. exact (EtGP.equals_table_tie' iri_equ gen_equals_table gen_equals_others C09_equals_table). Qed.
+Theorem C09_items_equal_gen_u : forall n it w, items_equal_gen_u n it w = items_equal_u n it w.
+Proof. exact (ItGP.items_equal_t_tie iri_equ gen_itemseq_fns C09_itemseq_table gen_equals_table gen_equals_others C09_equals_table). Qed.
+Theorem C09_ieq_gen_u : forall x y, items_equal_gen_u (fuel_for x y) x y = ieq_u x y.
+Proof. exact (fun x y => C09_items_equal_gen_u (fuel_for x y) x y). Qed.
+Theorem C09_iris_contains_gen_u : forall lo r,
+  sem_iris_contains_u gen_itemseq_fns lo r = Ok (if is_nil r then false else iris_contains_u (lst lo) (lnk r)).
+Proof. exact (ItGP.iris_contains_tie iri_equ gen_itemseq_fns C09_itemseq_table). Qed.
+Theorem C09_callee_table_tie_u : forall e, In e gen_cmp_callees ->
+  forall c, cmp_of_raw (cc_self e) (cc_raw e) = Some c -> forall rec ofs wfs,
+  raw_block_sem_u rec (cc_guard_callee e) (cc_callee e) (cc_raw e) ofs wfs = Some (cmp_one_u cfg_fixed rec c ofs wfs).
+Proof. exact (CcGP.callee_table_tie iri_equ gen_equals_table gen_cmp_callees C09_callee_table). Qed.
+
+(* non-vacuity: the generated tables evaluated over the wide comparison on ids outside the plain grammar *)
+Example C09_items_equal_gen_u_example :
+  items_equal_gen_u 20 (ex_note_u (B "https://example.com/users/%41lice")) (ex_note_u (B "HTTPS://bob@EXAMPLE.com/users/./alice/#me")) = Ok true /\
+  items_equal_gen 20 (ex_note_u (B "https://example.com/users/%41lice")) (ex_note_u (B "HTTPS://bob@EXAMPLE.com/users/./alice/#me")) = Ok false /\
+  items_equal_gen_u 20 (ex_note_u (B "https://example.com/users/%41lice")) (ex_note_u (B "https://example.com/users/%2541lice")) = Ok false /\
+  sem_iris_contains_u gen_itemseq_fns (Some [B "http://[fe80::1%25eth0]:8080/a"]) (IIri false (B "HTTP://[FE80::1%25ETH0]:8080/a/")) = Ok true.
+Proof. repeat split; vm_compute; reflexivity. Qed.
